@@ -14,7 +14,7 @@ import (
 	"hermesverif/internal/gen"
 )
 
-const paramSrc = "/repo/examples/parameter"
+var paramSrc = core.RepoRoot + "/examples/parameter"
 
 // runCase is one execution of the real simulator on a generated project.
 type runCase struct {
